@@ -145,6 +145,10 @@ def run_vdrive(work, name, cases, shards=NCPU, timeout_ms=30000):
     """Runs the cases through vdrive in parallel shards.  Returns a list of
     shard prefixes; each has .dumps/.errs/.traces ndjson next to it."""
     build_harness()
+    # more shards than cores when there is much to do: the pool below then balances the load
+    # (cases differ a lot in cost; with one shard per core the slowest shard decided the time)
+    if shards == NCPU and len(cases) > 40 * NCPU:
+        shards = NCPU * 4
     shards = max(1, min(shards, len(cases)))
     prefixes = []
     for s in range(shards):
